@@ -97,6 +97,73 @@ func main() {
 ]
 
 
+def goroutine_programs(rng):
+    """programs that launch goroutines and synchronise with a channel / a WaitGroup (fixed + seeded sizes)"""
+    progs = []
+    for k, n in enumerate([40, rng.randint(3, 30)]):
+        progs.append(("go-channel-%d" % n, """@extensions true
+import "fmt"
+
+func worker(id int, out chan) {
+    out <- id * 2
+}
+
+func main() {
+    out := make(chan, 64)
+    n := %d
+    for i := 0; i < n; i = i + 1 {
+        go worker(i, out)
+    }
+    sum := 0
+    for i := 0; i < n; i = i + 1 {
+        v := <-out
+        sum = sum + v
+    }
+    fmt.Println(sum)
+    fmt.Println(%d)
+}
+""" % (n, 900 + k)))
+    for k, n in enumerate([6, rng.randint(2, 12)]):
+        progs.append(("go-waitgroup-try-%d" % n, """@extensions true
+import "fmt"
+import "sync"
+
+func thread(id int, wg *sync.WaitGroup, out chan) {
+    defer wg.Done()
+    try {
+        z := 0
+        x := id / z
+        out <- x
+    } catch {
+        out <- id
+    }
+}
+
+func main() {
+    var wg sync.WaitGroup
+    out := make(chan, 16)
+    count := %d
+    for i := 1; i <= count; i = i + 1 {
+        wg.Add(1)
+        go thread(i, &wg, out)
+    }
+    wg.Wait()
+    total := 0
+    for i := 1; i <= count; i = i + 1 {
+        v := <-out
+        total = total + v
+    }
+    fmt.Println(total)
+    fmt.Println(%d)
+}
+""" % (n, 800 + k)))
+    return progs
+
+
+RUN_TIMEOUT = 30      # seconds per run; a diagnostics mode that exceeds it twice (second try: 2x) while the plain
+                      # run of the same program terminates is reported as diagnostics-mode-hangs
+
+
 def scan_writes():
     base = os.path.join(vf.REPO, "internal/language")
     fields, methods = {}, {}
@@ -114,21 +181,25 @@ def scan_writes():
     return fields, methods
 
 
-def ego_run(ego, env, args, path, stdin=None):
+def ego_run(ego, env, args, path, stdin=None, timeout=RUN_TIMEOUT):
+    """-> observation, or None when the run did not terminate within the timeout"""
     try:
-        p = subprocess.run([ego, "run"] + args + [path], env=env, input=stdin, capture_output=True, text=True, timeout=120)
+        p = subprocess.run([ego, "run"] + args + [path], env=env, input=stdin, capture_output=True, text=True, timeout=timeout)
     except subprocess.TimeoutExpired:
-        return [3]
+        return None
     return C10mod.observe(p.stdout, "error" if p.returncode != 0 else "")
 
 
 def run(ck):
     quick = ck.tier == "quick"
-    ck.cov["rule"] = ("programs = debugger corpus + C10 corpus + generated try/defer/panic/loop/call programs (C10 generator), "
+    ck.cov["rule"] = ("programs = debugger corpus + C10 corpus + generated try/defer/panic/loop/call programs (C10 generator) + "
+                      "goroutine programs (go statements with channel / sync.WaitGroup synchronisation, try/catch and defer inside the goroutines), "
                       "each run plainly and with --trace, --profile, --debug (stdin: `continue` lines); observable = printed "
                       "integer markers + exit status class. distinct_nontrivial = distinct programs printing >= 3 markers "
                       "whose plain run agrees with all three modes")
-    ck.assume("trace and profile write only to the log / profile table (checked by the scan of Context writes)",
+    ck.assume("a diagnostics mode that does not end within %d s and again within %d s, while the plain run of the same "
+              "program ends, hangs" % (RUN_TIMEOUT, 2 * RUN_TIMEOUT),
+              "trace and profile write only to the log / profile table (checked by the scan of Context writes)",
               "the debugger is driven with `continue` only: no breakpoints, no stepping commands")
     ck.trusted("real ego binary flags --trace --profile --debug (internal/commands)",
                "harness/C10 with VERIF_DEBUGSIGNAL=1: SetDebug(true) + Resume on every debugger signal (debugger.go runFrom)",
@@ -182,25 +253,57 @@ def run(ck):
     vf.sh([ego, "run", warm], env=env, timeout=120)
     nontriv, dist = set(), {"trace": 0, "profile": 0, "debug": 0}
     plain_all = []
+    nharness = len(srcs)                       # goroutine programs go to the binary only (outside the VM model)
+    gnames = []
+    if not ck.replay_file:
+        for n, sx in goroutine_programs(ck.rng):
+            names.append(n)
+            srcs.append(sx)
+            gnames.append(n)
+    hangs = 0
     for i, src in enumerate(srcs):
         pth = os.path.join(ck.work, "q%d.ego" % i)
         open(pth, "w").write(src)
         plain = ego_run(ego, env, [], pth)
+        if plain is None:
+            plain = ego_run(ego, env, [], pth, timeout=4 * RUN_TIMEOUT)
+        if plain is None:
+            plain_all.append([3])
+            ck.notes.append("plain run of %s does not terminate within %d s: not compared" % (names[i], 4 * RUN_TIMEOUT))
+            continue
         plain_all.append(plain)
         agree = True
         for mode, args, stdin in (("trace", ["--trace"], None), ("profile", ["--profile"], None),
                                   ("debug", ["--debug"], "continue\n" * 400)):
             got = ego_run(ego, env, args, pth, stdin)
             dist[mode] += 1
+            if got is None:
+                # hard timeout: confirm (the sandbox may be loaded) with twice the time, the plain run again first
+                again_plain = ego_run(ego, env, [], pth)
+                got = ego_run(ego, env, args, pth, stdin, timeout=2 * RUN_TIMEOUT)
+                if got is None and again_plain is not None:
+                    hangs += 1
+                    agree = False
+                    ck.violation("diagnostics-mode-hangs",
+                                 "program %s: `ego run %s` does not terminate (%d s, then %d s) while the plain run ends with %s" % (
+                                     names[i], args[0], RUN_TIMEOUT, 2 * RUN_TIMEOUT, plain),
+                                 replay={"src": src, "mode": mode, "plain": plain, "timeout_s": [RUN_TIMEOUT, 2 * RUN_TIMEOUT]})
+                    continue
+                if got is None:
+                    ck.notes.append("%s %s: timeouts of both the mode and the repeated plain run (loaded machine): skipped" % (names[i], mode))
+                    continue
             if got != plain:
                 agree = False
                 ck.violation("mode-%s" % mode, "program %s: `ego run %s` gives %s, the plain run %s" % (names[i], args[0], got, plain),
                              replay={"src": src, "mode": mode, "plain": plain, "with_mode": got})
         if agree and len(plain) >= 4:
             nontriv.add(src)
-    ck.cov["evaluations"] = 4 * len(srcs)
+    srcs_all = srcs
+    srcs = srcs[:nharness]
+    ck.cov["evaluations"] = 4 * len(srcs_all)
     ck.cov["distinct_nontrivial"] = len(nontriv)
-    ck.cov["input_distribution"] = {"programs": len(srcs), "runs_per_mode": dist,
+    ck.cov["input_distribution"] = {"programs": len(srcs_all), "goroutine_programs": gnames, "mode_hangs": hangs,
+                                    "runs_per_mode": dist,
                                     "with_try": sum(1 for s in srcs if "try" in s),
                                     "plain_outcomes": {str(c): sum(1 for o in plain_all if o[0] == c) for c in (0, 1, 2)}}
     for i in range(min(3, len(srcs))):
